@@ -157,13 +157,20 @@ def _hyp_shard(args):
     phases = [Phase.generate, Phase.shrink] if sub.shrink else [Phase.generate]
     for rnd in range(MAX_ROUNDS):
         target = [None, None]
+        # Hypothesis always starts the generate phase with the minimal example; with a handful of examples per shard every
+        # shard would spend one of them (all of them for n = 1) on that same case: generate one more and skip the first.
+        n_first = n_examples if rnd == 0 else max(20, n_examples // 2)
+        skip = [1 if (n_first <= 8 and shard > 0) else 0]
 
         def body(desc):
+            if skip[0]:
+                skip[0] = 0
+                return
             run_case(sub, desc, stats, excluded, target, timeout)
 
         test = given(strat)(body)
         test = settings(
-            max_examples=n_examples if rnd == 0 else max(20, n_examples // 2),
+            max_examples=n_first + skip[0],
             database=None,
             deadline=None,
             derandomize=False,
